@@ -49,14 +49,43 @@ theorem vals_nonneg (A : List (K × K)) (t : K) : ∀ v ∈ vals A t, 0 ≤ v :=
 
 theorem vals_perm {A B : List (K × K)} (h : A.Perm B) (t : K) : (vals A t).Perm (vals B t) := h.map _
 
+omit [Field K] [LinearOrder K] [IsStrictOrderedRing K] in
+theorem pairwise_zip_tail {β : Type} {R : β → β → Prop} : ∀ {l : List β}, l.Pairwise R →
+    ∀ pq ∈ l.zip l.tail, R pq.1 pq.2
+  | [], _, pq, h => by simp at h
+  | [_], _, pq, h => by simp at h
+  | a :: b :: t, hp, pq, h => by
+    simp only [List.tail_cons, List.zip_cons_cons, List.mem_cons] at h
+    rcases h with rfl | h
+    · exact (List.pairwise_cons.mp hp).1 b (by simp)
+    · exact pairwise_zip_tail (List.pairwise_cons.mp hp).2 pq (by simpa using h)
+
+/-- strictly increasing abscissae, at least two points and zero end ordinates: the Boolean `wellFormed` -/
+theorem wellFormed_of_asc {c : List (K × K)} (hasc : Asc c) (hlen : 2 ≤ c.length)
+    (hfirst : ∀ p ∈ c.head?, p.2 = 0) (hlast : ∀ p ∈ c.getLast?, p.2 = 0) : wellFormed c = true := by
+  match c, hlen with
+  | (x0, y0) :: q :: r, _ =>
+    have h0 : y0 = 0 := hfirst (x0, y0) (by simp)
+    have hp : ((x0, y0) :: q :: r).Pairwise (fun p q => p.1 < q.1) := List.pairwise_map.mp hasc
+    have hz := pairwise_zip_tail hp
+    simp only [wellFormed, Bool.and_eq_true, beq_iff_eq, List.all_eq_true, decide_eq_true_eq]
+    refine ⟨⟨h0, ?_⟩, fun pq hpq => hz pq hpq⟩
+    cases hl : ((x0, y0) :: q :: r).getLast? with
+    | none => simp at hl
+    | some p =>
+      have := hlast p (by rw [hl]; simp)
+      simp [this]
+
 /-- invariant of the inner loop.  `A0` is the work list at the start of the level, `(b,d)` the current
     bar, `A` the remaining work list, `pre ++ [peak b d]` the points collected so far. -/
 structure Inv (A0 : List (K × K)) (b d : K) (A pre : List (K × K)) : Prop where
   hbd : b < d
+  lenA : A.length < A0.length
   posA : ∀ q ∈ A, q.1 < q.2
   sorted : KeySorted A
   ahead : ∀ q ∈ A, d < q.2 → b < q.1
   hpre : pre ≠ []
+  first : ∃ x0 rest, pre = (x0, 0) :: rest
   asc : Asc (pre ++ [peak b d])
   ge : ∀ t, tent b d t ≤ Gf (pre ++ [peak b d]) b d t
   dom : ∀ q ∈ A, q.2 ≤ d → ∀ t, tent q.1 q.2 t ≤ Gf (pre ++ [peak b d]) b d t
@@ -64,8 +93,10 @@ structure Inv (A0 : List (K × K)) (b d : K) (A pre : List (K × K)) : Prop wher
 
 /-- what one level delivers: the envelope, and a work list shifted by one order statistic -/
 structure Post (A0 cur' A' : List (K × K)) : Prop where
+  len : A'.length < A0.length
   posA : ∀ q ∈ A', q.1 < q.2
   sorted : KeySorted A'
+  wf : wellFormed cur' = true
   top : ∀ t, evalPL cur' t = kth (vals A0 t) 0
   rest : ∀ t k, kth (vals A0 t) (k + 1) = kth (vals A' t) k
 
@@ -130,7 +161,13 @@ theorem inner_spec (A0 : List (K × K)) : ∀ (fuel : Nat) (b d : K) (A pre cur'
         intro t v hv
         obtain ⟨q, hq, rfl⟩ := List.mem_map.mp hv
         exact I.dom q hq (hle q hq) t
-      refine ⟨I.posA, I.sorted, ?_, ?_⟩
+      refine ⟨I.lenA, I.posA, I.sorted, ?_, ?_, ?_⟩
+      · obtain ⟨x0, rest, hpre⟩ := I.first
+        have hasc : Asc (pre ++ [peak b d] ++ [(d, 0)]) := I.asc.snoc (mid_lt I.hbd).2
+        apply wellFormed_of_asc hasc
+        · simp
+        · rw [hpre]; simp
+        · simp
       · intro t
         rw [evalPL_close I.hpre I.hbd I.asc, I.kthId t 0, kth_cons_max_zero (hmax t)]
       · intro t k
@@ -146,6 +183,8 @@ theorem inner_spec (A0 : List (K × K)) : ∀ (fuel : Nat) (b d : K) (A pre cur'
         have hdd' : d < d' := by simpa using hpx
         obtain ⟨hb'd', posA1, sortedA1, aheadA1, nestA1, hperm⟩ :=
           pop_facts hA hA1 hpreA hdd' I.posA I.sorted
+        have hlenA1 : A1.length + 1 = A.length := by rw [hperm.length_eq]; rfl
+        have hlen1 : A1.length < A0.length := by have := I.lenA; omega
         -- domination of the old work list by the new envelope, given `G' = max G tent'`
         have domA1 : ∀ {G' : K → K}, (∀ t, G' t = max (Gf (pre ++ [peak b d]) b d t) (tent b' d' t)) →
             ∀ q ∈ A1, q.2 ≤ d' → ∀ t, tent q.1 q.2 t ≤ G' t := by
@@ -155,6 +194,10 @@ theorem inner_spec (A0 : List (K × K)) : ∀ (fuel : Nat) (b d : K) (A pre cur'
           · have hqA : q ∈ A := hperm.mem_iff.mpr (List.mem_cons_of_mem _ hq)
             exact le_trans (I.dom q hqA hqd t) (le_max_left _ _)
           · exact le_trans (tent_mono (nestA1 q hq (not_le.mp hqd) hq2) hq2 t) (le_max_right _ _)
+        have hfirst : ∀ ext : List (K × K), ∃ x0 rest, pre ++ ext = (x0, 0) :: rest := by
+          intro ext
+          obtain ⟨x0, rest, hpre⟩ := I.first
+          exact ⟨x0, rest ++ ext, by rw [hpre]; simp⟩
         by_cases h1 : d < b'
         · -- Case I
           rw [if_pos h1] at h
@@ -162,7 +205,9 @@ theorem inner_spec (A0 : List (K × K)) : ∀ (fuel : Nat) (b d : K) (A pre cur'
           have hge' : ∀ t, tent b' d' t ≤ Gf (pre ++ [peak b d] ++ [(d, 0)] ++ [(b', 0)] ++ [peak b' d']) b' d' t := by
             intro t; rw [hmax t]; exact le_max_right _ _
           refine inner_spec A0 fuel b' d' A1 (pre ++ [peak b d] ++ [(d, 0)] ++ [(b', 0)]) cur' A' ?_ h
-          refine ⟨hb'd', posA1, sortedA1, aheadA1, by simp, hasc', hge', domA1 hmax, ?_⟩
+          refine ⟨hb'd', hlen1, posA1, sortedA1, aheadA1, by simp,
+            by simpa [List.append_assoc] using hfirst [peak b d, (d, 0), (b', 0)],
+            hasc', hge', domA1 hmax, ?_⟩
           intro t k
           rw [kth_exchange (I.kthId t) hperm rfl (hmax t) (hmin t).symm k]
           rw [kth_perm (List.Perm.swap _ _ _) k]
@@ -181,7 +226,8 @@ theorem inner_spec (A0 : List (K × K)) : ∀ (fuel : Nat) (b d : K) (A pre cur'
             have hge' : ∀ t, tent b' d' t ≤ Gf (pre ++ [peak b b'] ++ [(b', 0)] ++ [peak b' d']) b' d' t := by
               intro t; rw [hmax t]; exact le_max_right _ _
             refine inner_spec A0 fuel b' d' A1 (pre ++ [peak b b'] ++ [(b', 0)]) cur' A' ?_ h
-            refine ⟨hb'd', posA1, sortedA1, aheadA1, by simp, hasc', hge', domA1 hmax, ?_⟩
+            refine ⟨hb'd', hlen1, posA1, sortedA1, aheadA1, by simp,
+              by simpa [List.append_assoc] using hfirst [peak b b', (b', 0)], hasc', hge', domA1 hmax, ?_⟩
             intro t k
             rw [kth_exchange (I.kthId t) hperm rfl (hmax t) (hmin t).symm k]
             rw [kth_perm (List.Perm.swap _ _ _) k]
@@ -203,7 +249,13 @@ theorem inner_spec (A0 : List (K × K)) : ∀ (fuel : Nat) (b d : K) (A pre cur'
             have hpermA2 := pyInsert_perm (insertPos b' d A1) (b', d) A1
             refine inner_spec A0 fuel b' d' (pyInsert (insertPos b' d A1) (b', d) A1)
               (pre ++ [peak b d] ++ [((b' + d) / 2, (d - b') / 2)]) cur' A' ?_ h
-            refine ⟨hb'd', ?_, keySorted_reinsert sortedA1 b' d, ?_, by simp, hasc', hge', ?_, ?_⟩
+            refine ⟨hb'd', ?_, ?_, keySorted_reinsert sortedA1 b' d, ?_, by simp,
+              by simpa [List.append_assoc] using hfirst [peak b d, ((b' + d) / 2, (d - b') / 2)],
+              hasc', hge', ?_, ?_⟩
+            · rw [hpermA2.length_eq]
+              have := I.lenA
+              simp only [List.length_cons]
+              omega
             · intro q hq
               rcases List.mem_cons.mp (hpermA2.mem_iff.mp hq) with rfl | hq
               · exact hb'd
@@ -229,8 +281,8 @@ theorem inv_init {b d : K} {A : List (K × K)} (hs : KeySorted ((b, d) :: A))
     (hp : ∀ q ∈ (b, d) :: A, q.1 < q.2) : Inv ((b, d) :: A) b d A [(b, 0)] := by
   have hbd : b < d := hp (b, d) (by simp)
   have hhead : ∀ q ∈ A, KLe (b, d) q := (List.pairwise_cons.mp hs).1
-  refine ⟨hbd, fun q hq => hp q (List.mem_cons_of_mem _ hq), (List.pairwise_cons.mp hs).2, ?_, by simp,
-    Asc_init hbd, fun t => by rw [Gf_init hbd], ?_, ?_⟩
+  refine ⟨hbd, by simp, fun q hq => hp q (List.mem_cons_of_mem _ hq), (List.pairwise_cons.mp hs).2, ?_, by simp,
+    ⟨b, [], rfl⟩, Asc_init hbd, fun t => by rw [Gf_init hbd], ?_, ?_⟩
   · intro q hq hlt
     rcases hhead q hq with h | ⟨_, h⟩
     · exact h
@@ -256,11 +308,12 @@ theorem kth_nil (k : Nat) : kth ([] : List K) k = 0 := by
     order statistics of the tents of its (key-sorted) work list -/
 theorem outerNoShortcut_spec : ∀ (fuel : Nat) (A : List (K × K)) (L Lout : List (List (K × K))),
     KeySorted A → (∀ q ∈ A, q.1 < q.2) → outerNoShortcut fuel A L = some Lout →
-      ∃ M, Lout = L ++ M ∧ ∀ k t, evalDepth M k t = kth (vals A t) k
+      ∃ M, Lout = L ++ M ∧ (∀ c ∈ M, wellFormed c = true) ∧ M.length ≤ A.length ∧
+        ∀ k t, evalDepth M k t = kth (vals A t) k
   | fuel, [], L, Lout, _, _, h => by
     have : Lout = L := by
       cases fuel <;> simpa [outerNoShortcut] using h.symm
-    refine ⟨[], by simp [this], ?_⟩
+    refine ⟨[], by simp [this], by simp, by simp, ?_⟩
     intro k t
     show evalDepth [] k t = kth [] k
     rw [kth_nil]; rfl
@@ -275,8 +328,16 @@ theorem outerNoShortcut_spec : ∀ (fuel : Nat) (A : List (K × K)) (L Lout : Li
       simp only at h
       have hpost : Post ((b, d) :: A) cur A2 :=
         inner_spec ((b, d) :: A) (A.length + 1) b d A [(b, 0)] cur A2 (inv_init hs hp) hin
-      obtain ⟨M', hM', hspec⟩ := outerNoShortcut_spec fuel A2 (L ++ [cur]) Lout hpost.sorted hpost.posA h
-      refine ⟨cur :: M', by rw [hM']; simp, ?_⟩
+      obtain ⟨M', hM', hwf, hlen, hspec⟩ :=
+        outerNoShortcut_spec fuel A2 (L ++ [cur]) Lout hpost.sorted hpost.posA h
+      refine ⟨cur :: M', by rw [hM']; simp, ?_, ?_, ?_⟩
+      · intro c hc
+        rcases List.mem_cons.mp hc with rfl | hc
+        · exact hpost.wf
+        · exact hwf c hc
+      · have := hpost.len
+        simp only [List.length_cons] at this ⊢
+        omega
       intro k t
       cases k with
       | zero => rw [evalDepth_cons_zero, hpost.top t]
@@ -289,12 +350,25 @@ theorem sweepNoShortcut_sound {bars : List (K × K)} {L : List (List (K × K))}
     evalDepth L k t = landscape bars k t := by
   unfold sweepNoShortcut at h
   have hperm := stableSort_perm keyLe bars
-  obtain ⟨M, hM, hspec⟩ := outerNoShortcut_spec _ _ [] L (stableSort_keySorted bars)
+  obtain ⟨M, hM, _, _, hspec⟩ := outerNoShortcut_spec _ _ [] L (stableSort_keySorted bars)
     (fun q hq => hpos q (hperm.mem_iff.mp hq)) h
   have : L = M := by simpa using hM
   subst this
   rw [hspec k t]
   exact kth_perm (vals_perm hperm t) k
+
+/-- … and every returned depth is well formed (≥ 2 points, strictly increasing abscissae, zero ends), and
+    there are at most as many depths as bars -/
+theorem sweepNoShortcut_wellFormed {bars : List (K × K)} {L : List (List (K × K))}
+    (hpos : ∀ p ∈ bars, p.1 < p.2) (h : sweepNoShortcut bars = some L) :
+    (∀ c ∈ L, wellFormed c = true) ∧ L.length ≤ bars.length := by
+  unfold sweepNoShortcut at h
+  have hperm := stableSort_perm keyLe bars
+  obtain ⟨M, hM, hwf, hlen, _⟩ := outerNoShortcut_spec _ _ [] L (stableSort_keySorted bars)
+    (fun q hq => hpos q (hperm.mem_iff.mp hq)) h
+  have : L = M := by simpa using hM
+  subst this
+  exact ⟨hwf, by rw [← hperm.length_eq]; exact hlen⟩
 
 /-! ### the sweep with the shortcut, when the shortcut does not fire -/
 
